@@ -104,7 +104,7 @@ func init() {
 	Register(&Check{
 		ID: "C10", Level: "fault_enumeration", Tech: "deterministic simulation: exhaustive single-fault enumeration per history at the drive / index-store / write-cache seams, followed by probe calls; exact deadlock detection by the scheduler's lock table",
 		Rule:      "per generated short history (setup + 1-3 calls of any kind incl. rejected calls and handle groups) a fault-free pilot counts the calls through each seam; then EVERY (call, seam, k) single fault point is re-run (drive write incl. short writes, drive read/seek, drive stat/open syscalls, k-th index-store call, cache new/read/write/seek/size/truncate), followed by Stat and Mkdir probes; oracle: all calls return, no panic, no lock held and no drive handle open at quiescence; an evaluation = one faulted run; non-trivial = the fault fired; distinct by (history kinds, call, seam, k)",
-		QuickRuns: 60, QuickSecs: 70, ThoroughRuns: 3000, ThoroughSecs: 1500,
+		QuickRuns: 150, QuickSecs: 70, ThoroughRuns: 3000, ThoroughSecs: 1500,
 		Assumptions: []string{"index-store faults fail before touching the database (no applied-but-failed writes)", "Close() errors of the drive file are not injected (os.File.Close does not fail on a regular file)", "nothing is required about WHAT a call returns under a fault"},
 		Gen: func(r *rand.Rand, tier string, relax Relax) *Case {
 			c := &Case{Cfg: GenConfig(r, 0.6), P: map[string]int64{"enumerate": 1}, S: map[string]string{}}
